@@ -79,6 +79,14 @@ type impPkg struct {
 	// calls of a function-valued field that acts on state the record carries (a callback closing over its own
 	// state): printed callee -> (record field holding that state, Coq function : args -> state -> state)
 	effectCalls map[string][2]string
+	// translated functions of another package that this one calls (coqName carries their section arguments)
+	extern []impFn
+	// Go struct types modelled as Coq pairs: type name -> field name -> projection
+	pairTypes map[string]map[string]string
+	// equality test of the key type of map-kind fields
+	mapEq string
+	// Go receiver type of the methods called through an alias expression (e.g. "h.inner" -> "Heap")
+	aliasRecv map[string]string
 }
 
 type bindT struct{ pat, rhs string }
@@ -204,6 +212,12 @@ func (t *impT) expr(e ast.Expr) string {
 			}
 			return "(" + f.coqName + " " + v + ")"
 		}
+		// a field of a struct modelled as a pair
+		for _, flds := range t.pkg.pairTypes {
+			if proj, ok := flds[x.Sel.Name]; ok {
+				return "(" + proj + " " + t.expr(x.X) + ")"
+			}
+		}
 	case *ast.UnaryExpr:
 		switch x.Op {
 		case token.SUB:
@@ -303,6 +317,11 @@ func (t *impT) expr(e ast.Expr) string {
 		tyName := goText(x.Type)
 		if i := strings.Index(tyName, "["); i >= 0 {
 			tyName = tyName[:i]
+		}
+		if _, ok := t.pkg.pairTypes[tyName]; ok && len(x.Elts) == 2 {
+			if _, kv := x.Elts[0].(*ast.KeyValueExpr); !kv {
+				return "(" + t.expr(x.Elts[0]) + ", " + t.expr(x.Elts[1]) + ")"
+			}
 		}
 		for _, r := range t.pkg.recs {
 			if r.goType != tyName {
@@ -407,14 +426,12 @@ func (t *impT) call(c *ast.CallExpr, value bool) string {
 	case *ast.SelectorExpr:
 		if v, r := t.recOf(f.X); r != nil {
 			recvVar = v
-			for k, sp := range t.byKey {
-				if strings.HasSuffix(k, "."+f.Sel.Name) && sp.recvRec != "" {
-					rr := t.pkg.recs[sp.recvRec]
-					if rr.ctor == r.ctor {
-						key = k
-					}
-				}
+			// the Go type of the callee's receiver: the current receiver's, or the one the spec gives for an alias
+			rt := r.goType
+			if a, ok := t.pkg.aliasRecv[goText(f.X)]; ok {
+				rt = a
 			}
+			key = rt + "." + f.Sel.Name
 		}
 	}
 	sp := t.byKey[key]
@@ -796,6 +813,24 @@ func (t *impT) stmts(l []ast.Stmt, k kont) string {
 			return wrapPre(pre, body)
 		}
 		if len(s.Lhs) == 2 && len(s.Rhs) == 1 {
+			// v, ok := h.m[k] on a map-kind field
+			if ix, ok := s.Rhs[0].(*ast.IndexExpr); ok {
+				if sel, ok := ix.X.(*ast.SelectorExpr); ok {
+					if v, r := t.recOf(sel.X); r != nil {
+						if f := r.field(sel.Sel.Name); f != nil && f.kind == "map" {
+							key := t.expr(ix.Index)
+							names := []string{"_", "_"}
+							for i, l := range s.Lhs {
+								if id, ok := l.(*ast.Ident); ok && id.Name != "_" {
+									names[i] = id.Name
+								}
+							}
+							pre := t.takePre()
+							return wrapPre(pre, "let '("+names[0]+", "+names[1]+") := gomapget "+t.pkg.mapEq+" ("+f.coqName+" "+v+") "+key+" in\n  "+rest())
+						}
+					}
+				}
+			}
 			// a, b := f(x) for pair-valued calls
 			if c, ok := s.Rhs[0].(*ast.CallExpr); ok {
 				if _, pure := t.pkg.pureCalls[goText(c.Fun)]; !pure {
@@ -828,6 +863,19 @@ func (t *impT) stmts(l []ast.Stmt, k kont) string {
 				case "panic":
 					pre := t.takePre()
 					return wrapPre(pre, t.panicText(c))
+				case "delete":
+					if len(c.Args) == 2 {
+						if sel, ok := c.Args[0].(*ast.SelectorExpr); ok {
+							if v, r := t.recOf(sel.X); r != nil && v == t.recvN {
+								if f := r.field(sel.Sel.Name); f != nil && f.kind == "map" {
+									key := t.expr(c.Args[1])
+									pre := t.takePre()
+									term := t.setField(v, r, f, "(gomapdel "+t.pkg.mapEq+" "+key+" ("+f.coqName+" "+v+"))")
+									return wrapPre(pre, "let "+v+" := "+term+" in\n  "+rest())
+								}
+							}
+						}
+					}
 				case "copy":
 					if len(c.Args) == 2 {
 						src := t.sliceTerm(c.Args[1])
@@ -1055,6 +1103,9 @@ func translateImp(pkg *impPkg, parse func(rel string) *ast.File) (string, error)
 	byKey := map[string]*impFn{}
 	for i := range pkg.fns {
 		byKey[pkg.fns[i].recv+"."+pkg.fns[i].name] = &pkg.fns[i]
+	}
+	for i := range pkg.extern {
+		byKey[pkg.extern[i].recv+"."+pkg.extern[i].name] = &pkg.extern[i]
 	}
 	for i := range pkg.fns {
 		sp := &pkg.fns[i]
